@@ -363,14 +363,15 @@ def finish(pid, tier, seed, mod, col, info):
     os.makedirs(os.path.join(VERIF, 'evidence'), exist_ok=True)
     evpath = os.path.join(VERIF, 'evidence', f'{pid}.json')
     txt = json.loads(jdump(ev))
+    schema_error = None
     try:
         import jsonschema
         with open('/root/.vp/EVIDENCE.schema.json') as f:
             jsonschema.validate(txt, json.load(f))
-    except ImportError:
+    except (ImportError, FileNotFoundError):
         pass
-    except FileNotFoundError:
-        pass
+    except Exception as e:  # noqa
+        schema_error = str(e)[:500]
     with open(evpath, 'w') as f:
         json.dump(txt, f, indent=1, sort_keys=True)
         f.write('\n')
@@ -384,8 +385,12 @@ def finish(pid, tier, seed, mod, col, info):
     for ln in lines:
         print(ln)
     sys.stdout.flush()
+    if schema_error:
+        print(f"HARNESS-ERROR: property={pid} evidence does not validate: {schema_error}")
     if fresh or nondeterministic:
         return 1
+    if schema_error:
+        return 2
     if col.harness_errors:
         return 2
     if col.evaluations == 0 or col.states == 0:
